@@ -845,6 +845,7 @@ def install(engine):
                 return SymDec(z)
             # not representable: in particular not a decimal with up to 30 fractional digits
             E._add(z3.Not(z3.IsInt(z * (10 ** 30))))
+            E.hint(z3.And(z3.IsInt(z * (3 * 10 ** 4)), z3.Not(z3.IsInt(z * (10 ** 4)))))     # e.g. thirds: surely not decimal
             raise ValueError("Can't convert symbolic fraction exactly to Decimal.")
         if isinstance(precision, SymInt):
             precision = E.concretise(precision)
